@@ -4,13 +4,15 @@
 //! `sync_all_files`, `handle_non_flush_request`.
 //!
 //! The request script of each harness is a concrete *shape* from the grammar
-//! of what `RaftLog::flush` / `try_close_full_chunk` emit (checked by the
-//! c04b_* harnesses): flush -> W[,R]; rotation -> [Wtail,] A. The batching
-//! schedule (which try_recv calls answer Empty although a request is queued,
-//! = the caller enqueues it a moment later) is a concrete bit mask, and every
-//! mask of a shape is its own harness (exhaustive for that shape). Symbolic in
-//! every harness: data lengths, head lengths of new files, and the failure of
-//! any write / fdatasync (at most MAXF failures per run).
+//! of what `RaftLog::flush` / `try_close_full_chunk` emit: flush -> W[,R];
+//! rotation -> [Wtail,] A. The requests are built when the worker receives
+//! them (ghost_chan::script), so their kind is a constant for symbolic
+//! execution. The batching schedule (which try_recv calls answer Empty
+//! although a request is available, = the caller enqueues it a moment later)
+//! is a concrete bit mask; every mask of a shape is its own harness
+//! (exhaustive for that shape). Symbolic in every harness: the head lengths of
+//! the files (hence all offsets), and the failure of any write / fdatasync
+//! (at most MAXF failures per run, at symbolic positions).
 //!
 //! Ghost truth (kani_support::ghost_fs): per file `len` and `synced_len` =
 //! length at the last *successful* sync. The monitors (ghost_chan::cb_fire,
@@ -24,23 +26,16 @@
 //!           oldest-first.
 use super::*;
 use crate::kani_support::ghost_chan as gc;
+use crate::kani_support::ghost_chan::script;
 use crate::kani_support::ghost_fs as gfs;
 use crate::kani_support::ktypes::*;
-use crate::raft_log::wal::flush_request::WriteRequest;
 use super::kani_h_a_worker::*;
 
 const NF: usize = gfs::NFILES;
 
-/// running "journalled so far" per file while the script is built
+/// running "journalled so far" per file while the script is defined
 static mut CUR: [u64; NF] = [0; NF];
 static mut TARGET: usize = 0;
-static mut NPUSH: usize = 0;
-
-pub(crate) struct Setup {
-    tx: gc::SyncSender<SeqRequest<KTypes>>,
-    worker: FlushWorker<KTypes>,
-    files: [Option<Arc<File>>; NF],
-}
 
 fn mk_file(slot: usize, chunk_id: u64, head: u64) -> Arc<File> {
     let g = gfs::fs();
@@ -56,12 +51,15 @@ fn mk_file(slot: usize, chunk_id: u64, head: u64) -> Arc<File> {
     f
 }
 
-fn setup(fmask: u32, mask: u32) -> Setup {
+fn setup(maxf: u8, mask: u32) -> FlushWorker<KTypes> {
     let g = gfs::fs();
-    g.faults = false;
-    g.fault_mask = fmask;
+    g.faults = maxf > 0;
+    g.max_faults = maxf;
     unsafe {
         gc::sched::BREAK_MASK = mask;
+        script::ON = true;
+        script::N = 0;
+        script::PC = 0;
     }
     gc::mon().on = true;
     let head0: u64 = kani::any();
@@ -70,87 +68,60 @@ fn setup(fmask: u32, mask: u32) -> Setup {
     unsafe {
         CUR[0] = head0;
         TARGET = 0;
+        SCRIPT_FILES[0] = Some(f0.clone());
     }
     let (tx, rx) = gc::sync_channel::<SeqRequest<KTypes>>(1024);
+    core::mem::forget(tx);
     let cache = Arc::new(RwLock::new(PayloadCache::<KTypes>::new(4, 16)));
     let done = Arc::new(AtomicU64::new(0));
-    let fe = FileEntry::<KTypes>::new(0, f0.clone(), None);
-    let worker = FlushWorker::new(rx, fe, cache, done);
-    Setup { tx, worker, files: [Some(f0), None, None, None] }
+    let fe = FileEntry::<KTypes>::new(0, f0, None);
+    FlushWorker::new(rx, fe, cache, done)
 }
 
-fn data_of(d: u8) -> Vec<u8> {
-    let mut v: Vec<u8> = Vec::with_capacity(2);
-    if d >= 1 {
-        v.push(0xAA);
-    }
-    if d >= 2 {
-        v.push(0xBB);
-    }
-    v
-}
-
-/// queue a Write with symbolic data length; `cb` = carries a callback
-fn push_w(s: &Setup, cb: bool) {
-    // concrete data length (alternating 1, 2, 0): a symbolic length makes
-    // write_all's "wrote 0 bytes" error path, and with it the drop glue of the
-    // whole worker, reachable for symbolic execution at every write
-    let d: u8 = unsafe { ((NPUSH + 1) % 3) as u8 };
+fn add(st: script::Step) -> usize {
     unsafe {
-        let j = NPUSH;
-        CUR[TARGET] += d as u64;
+        let j = script::N;
+        script::STEPS[j] = st;
         gc::mon().need[j] = CUR;
-        let req = WorkerRequest::Write(WriteRequest::<KTypes> {
-            upto_offset: CUR[TARGET],
-            data: data_of(d),
-            sync: true,
-            callback: if cb { Some(GhostCb { id: j as u8 }) } else { None },
-        });
-        let _ = s.tx.send(SeqRequest { seq: (j + 1) as u64, req });
-        NPUSH += 1;
+        script::N = j + 1;
+        j
     }
 }
 
-/// queue an AppendFile for a new chunk file (already created and its head
-/// record written, unsynced, by the caller thread)
-fn push_a(s: &mut Setup, slot: usize) {
+/// a Write with data length `d` (concrete); `cb` = carries a callback
+fn w(d: u8, cb: bool) {
+    unsafe {
+        CUR[TARGET] += d as u64;
+        add(script::Step { kind: 2, d, cb, slot: 0, slot2: 0xff, off: CUR[TARGET] });
+    }
+}
+
+/// AppendFile for a new chunk file (already created and its head record
+/// written, unsynced, by the caller thread); head length symbolic
+fn a(slot: usize) {
     let head: u64 = kani::any();
     kani::assume(head >= 1 && head <= 3);
     unsafe {
         let start = gfs::fs().files[TARGET].chunk_id + CUR[TARGET];
         let f = mk_file(slot, start, head);
-        s.files[slot] = Some(f.clone());
-        let j = NPUSH;
+        SCRIPT_FILES[slot] = Some(f);
         TARGET = slot;
         CUR[slot] = head;
-        gc::mon().need[j] = CUR;
-        let req = WorkerRequest::AppendFile(FileEntry::<KTypes>::new(start, f, None));
-        let _ = s.tx.send(SeqRequest { seq: (j + 1) as u64, req });
-        NPUSH += 1;
+        add(script::Step { kind: 0, d: 0, cb: false, slot: slot as u8, slot2: 0xff, off: start });
     }
 }
 
-/// queue RemoveChunks for ghost slot(s) (oldest first, as `purge` pops them)
-fn push_r(s: &Setup, slot_a: usize, slot_b: Option<usize>) {
+/// RemoveChunks for ghost slot(s) (oldest first, as `purge` pops them)
+fn r(slot_a: u8, slot_b: u8) {
     unsafe {
-        let j = NPUSH;
-        gc::mon().last_w_before_r = j - 1;
-        gc::mon().need[j] = CUR;
-        let mut paths: Vec<String> = Vec::with_capacity(2);
-        paths.push(gfs::path_of_slot(slot_a));
-        if let Some(b) = slot_b {
-            paths.push(gfs::path_of_slot(b));
-        }
-        let req = WorkerRequest::RemoveChunks { chunk_paths: paths };
-        let _ = s.tx.send(SeqRequest { seq: (j + 1) as u64, req });
-        NPUSH += 1;
+        gc::mon().last_w_before_r = script::N - 1;
     }
+    add(script::Step { kind: 1, d: 0, cb: false, slot: slot_a, slot2: slot_b, off: 0 });
 }
 
 /// run the real worker to the end of the script and evaluate the end-of-run
 /// monitors. `ncb` = number of callbacks in the script.
-fn finish(s: Setup, ncb: u8) {
-    let Setup { tx, worker, files } = s;
+fn finish(worker: FlushWorker<KTypes>, ncb: u8) {
     let res = run_worker(worker);
     let worker_ok = crate::kani_support::common::is_ok(res);
     let g = gfs::fs();
@@ -160,12 +131,13 @@ fn finish(s: Setup, ncb: u8) {
         assert!(worker_ok);
         assert!(m.n_cb == ncb, "without I/O errors every callback fires exactly once");
         assert!(m.n_ok == ncb);
+        assert!(script::remaining() == 0, "worker stopped before the end of the script");
     }
     assert!(m.n_cb <= ncb);
     kani::cover!(g.n_faults == 0 && m.n_cb == ncb, "fault-free run completes all callbacks");
-    kani::cover!(g.n_faults > 0 && worker_ok, "a run with an injected sync failure that the worker survives");
-    core::mem::forget(tx);
-    core::mem::forget(files);
+    if g.max_faults > 0 {
+        kani::cover!(g.n_faults > 0 && worker_ok, "a run with an injected sync failure that the worker survives");
+    }
 }
 
 macro_rules! worker_harness {
@@ -182,76 +154,216 @@ macro_rules! worker_harness {
         #[kani::stub(std::fs::File::metadata, crate::kani_support::stubs::file_metadata)]
         #[kani::stub(std::fs::remove_file, crate::kani_support::stubs::remove_file)]
         fn $name() {
-            let mut s = setup($maxf, $mask);
-            $script(&mut s);
-            finish(s, $ncb);
+            let worker = setup($maxf, $mask);
+            $script();
+            finish(worker, $ncb);
         }
     };
 }
 
-// ---- shapes ----
+// ---- shapes (data lengths concrete: a symbolic length makes write_all's
+// "wrote 0 bytes" error path reachable for symbolic execution at every write)
 /// one flush
-fn sh_w(s: &mut Setup) { push_w(s, true); }
-/// two flushes (batched or not)
-fn sh_ww(s: &mut Setup) { push_w(s, true); push_w(s, true); }
+fn sh_w() { w(1, true); }
+/// two flushes (batched or not), the second one with nothing new
+fn sh_ww() { w(2, true); w(0, true); }
 /// flush, rotation with pending tail, flush
-fn sh_wtaw(s: &mut Setup) { push_w(s, true); push_w(s, false); push_a(s, 1); push_w(s, true); }
+fn sh_wtaw() { w(1, true); w(1, false); a(1); w(2, true); }
 /// rotation with tail, then two flushes: the shape in which an older file's
 /// failed sync must not be forgotten
-fn sh_taww(s: &mut Setup) { push_w(s, false); push_a(s, 1); push_w(s, true); push_w(s, true); }
+fn sh_taww() { w(1, false); a(1); w(1, true); w(0, true); }
 /// rotation without pending tail, two flushes
-fn sh_aww(s: &mut Setup) { push_a(s, 1); push_w(s, true); push_w(s, true); }
+fn sh_aww() { a(1); w(2, true); w(1, true); }
+/// flush without callback, then an empty flush with callback
+fn sh_wnw() { w(2, false); w(0, true); }
 /// two rotations, then a flush
-fn sh_tataw(s: &mut Setup) { push_w(s, false); push_a(s, 1); push_w(s, false); push_a(s, 2); push_w(s, true); }
+fn sh_tataw() { w(1, false); a(1); w(1, false); a(2); w(1, true); }
 /// rotation, flush + remove of the oldest closed chunk
-fn sh_awr(s: &mut Setup) { push_a(s, 1); push_w(s, true); push_r(s, 0, None); }
-/// rotation with tail, flush, remove, flush
-fn sh_tawrw(s: &mut Setup) { push_w(s, false); push_a(s, 1); push_w(s, true); push_r(s, 0, None); push_w(s, true); }
-/// two closed chunks removed by one request, oldest first
-fn sh_aawr2(s: &mut Setup) { push_a(s, 1); push_a(s, 2); push_w(s, true); push_r(s, 0, Some(1)); }
+fn sh_awr() { a(1); w(1, true); r(0, 0xff); }
 /// remove while the next flush is already queued
-fn sh_awrw(s: &mut Setup) { push_a(s, 1); push_w(s, true); push_r(s, 0, None); push_w(s, true); }
+fn sh_awrw() { a(1); w(1, true); r(0, 0xff); w(1, true); }
+/// rotation with tail, flush, remove, flush
+fn sh_tawrw() { w(1, false); a(1); w(1, true); r(0, 0xff); w(0, true); }
+/// two closed chunks removed by one request, oldest first
+fn sh_aawr2() { a(1); a(2); w(1, true); r(0, 1); }
+
+// ---- c04_w: 1 requests, 1 batching schedules ----
+// @harness name=c04_w_m00 prop=C04 tier=quick timeout=900
+worker_harness!(c04_w_m00, 1, 0, sh_w, 1);
+
+// ---- c04_ww: 2 requests, 2 batching schedules ----
+// @harness name=c04_ww_m00 prop=C04 tier=quick timeout=900
+worker_harness!(c04_ww_m00, 2, 0, sh_ww, 2);
+// @harness name=c04_ww_m01 prop=C04 tier=quick timeout=900
+worker_harness!(c04_ww_m01, 2, 1, sh_ww, 2);
+
+// ---- c04_wnw: 2 requests, 2 batching schedules ----
+// @harness name=c04_wnw_m00 prop=C04 tier=quick timeout=900
+worker_harness!(c04_wnw_m00, 1, 0, sh_wnw, 1);
+// @harness name=c04_wnw_m01 prop=C04 tier=quick timeout=900
+worker_harness!(c04_wnw_m01, 1, 1, sh_wnw, 1);
+
+// ---- c04_wtaw: 4 requests, 8 batching schedules ----
+// @harness name=c04_wtaw_m00 prop=C04 tier=quick timeout=900
+worker_harness!(c04_wtaw_m00, 2, 0, sh_wtaw, 2);
+// @harness name=c04_wtaw_m01 prop=C04 tier=quick timeout=900
+worker_harness!(c04_wtaw_m01, 2, 1, sh_wtaw, 2);
+// @harness name=c04_wtaw_m02 prop=C04 tier=quick timeout=900
+worker_harness!(c04_wtaw_m02, 2, 2, sh_wtaw, 2);
+// @harness name=c04_wtaw_m03 prop=C04 tier=quick timeout=900
+worker_harness!(c04_wtaw_m03, 2, 3, sh_wtaw, 2);
+// @harness name=c04_wtaw_m04 prop=C04 tier=quick timeout=900
+worker_harness!(c04_wtaw_m04, 2, 4, sh_wtaw, 2);
+// @harness name=c04_wtaw_m05 prop=C04 tier=quick timeout=900
+worker_harness!(c04_wtaw_m05, 2, 5, sh_wtaw, 2);
+// @harness name=c04_wtaw_m06 prop=C04 tier=quick timeout=900
+worker_harness!(c04_wtaw_m06, 2, 6, sh_wtaw, 2);
+// @harness name=c04_wtaw_m07 prop=C04 tier=quick timeout=900
+worker_harness!(c04_wtaw_m07, 2, 7, sh_wtaw, 2);
+
+// ---- c04_taww: 4 requests, 8 batching schedules ----
+// @harness name=c04_taww_m00 prop=C04 tier=quick timeout=900
+worker_harness!(c04_taww_m00, 2, 0, sh_taww, 2);
+// @harness name=c04_taww_m01 prop=C04 tier=quick timeout=900
+worker_harness!(c04_taww_m01, 2, 1, sh_taww, 2);
+// @harness name=c04_taww_m02 prop=C04 tier=quick timeout=900
+worker_harness!(c04_taww_m02, 2, 2, sh_taww, 2);
+// @harness name=c04_taww_m03 prop=C04 tier=quick timeout=900
+worker_harness!(c04_taww_m03, 2, 3, sh_taww, 2);
+// @harness name=c04_taww_m04 prop=C04 tier=quick timeout=900
+worker_harness!(c04_taww_m04, 2, 4, sh_taww, 2);
+// @harness name=c04_taww_m05 prop=C04 tier=quick timeout=900
+worker_harness!(c04_taww_m05, 2, 5, sh_taww, 2);
+// @harness name=c04_taww_m06 prop=C04 tier=quick timeout=900
+worker_harness!(c04_taww_m06, 2, 6, sh_taww, 2);
+// @harness name=c04_taww_m07 prop=C04 tier=quick timeout=900
+worker_harness!(c04_taww_m07, 2, 7, sh_taww, 2);
+
+// ---- c04_aww: 3 requests, 4 batching schedules ----
+// @harness name=c04_aww_m00 prop=C04 tier=quick timeout=900
+worker_harness!(c04_aww_m00, 2, 0, sh_aww, 2);
+// @harness name=c04_aww_m01 prop=C04 tier=quick timeout=900
+worker_harness!(c04_aww_m01, 2, 1, sh_aww, 2);
+// @harness name=c04_aww_m02 prop=C04 tier=quick timeout=900
+worker_harness!(c04_aww_m02, 2, 2, sh_aww, 2);
+// @harness name=c04_aww_m03 prop=C04 tier=quick timeout=900
+worker_harness!(c04_aww_m03, 2, 3, sh_aww, 2);
+
+// ---- c04_tataw: 5 requests, 16 batching schedules ----
+// @harness name=c04_tataw_m00 prop=C04 tier=thorough timeout=900
+worker_harness!(c04_tataw_m00, 2, 0, sh_tataw, 1);
+// @harness name=c04_tataw_m01 prop=C04 tier=thorough timeout=900
+worker_harness!(c04_tataw_m01, 2, 1, sh_tataw, 1);
+// @harness name=c04_tataw_m02 prop=C04 tier=thorough timeout=900
+worker_harness!(c04_tataw_m02, 2, 2, sh_tataw, 1);
+// @harness name=c04_tataw_m03 prop=C04 tier=thorough timeout=900
+worker_harness!(c04_tataw_m03, 2, 3, sh_tataw, 1);
+// @harness name=c04_tataw_m04 prop=C04 tier=thorough timeout=900
+worker_harness!(c04_tataw_m04, 2, 4, sh_tataw, 1);
+// @harness name=c04_tataw_m05 prop=C04 tier=thorough timeout=900
+worker_harness!(c04_tataw_m05, 2, 5, sh_tataw, 1);
+// @harness name=c04_tataw_m06 prop=C04 tier=thorough timeout=900
+worker_harness!(c04_tataw_m06, 2, 6, sh_tataw, 1);
+// @harness name=c04_tataw_m07 prop=C04 tier=thorough timeout=900
+worker_harness!(c04_tataw_m07, 2, 7, sh_tataw, 1);
+// @harness name=c04_tataw_m08 prop=C04 tier=thorough timeout=900
+worker_harness!(c04_tataw_m08, 2, 8, sh_tataw, 1);
+// @harness name=c04_tataw_m09 prop=C04 tier=thorough timeout=900
+worker_harness!(c04_tataw_m09, 2, 9, sh_tataw, 1);
+// @harness name=c04_tataw_m10 prop=C04 tier=thorough timeout=900
+worker_harness!(c04_tataw_m10, 2, 10, sh_tataw, 1);
+// @harness name=c04_tataw_m11 prop=C04 tier=thorough timeout=900
+worker_harness!(c04_tataw_m11, 2, 11, sh_tataw, 1);
+// @harness name=c04_tataw_m12 prop=C04 tier=thorough timeout=900
+worker_harness!(c04_tataw_m12, 2, 12, sh_tataw, 1);
+// @harness name=c04_tataw_m13 prop=C04 tier=thorough timeout=900
+worker_harness!(c04_tataw_m13, 2, 13, sh_tataw, 1);
+// @harness name=c04_tataw_m14 prop=C04 tier=thorough timeout=900
+worker_harness!(c04_tataw_m14, 2, 14, sh_tataw, 1);
+// @harness name=c04_tataw_m15 prop=C04 tier=thorough timeout=900
+worker_harness!(c04_tataw_m15, 2, 15, sh_tataw, 1);
+
+// ---- c08_awr: 3 requests, 4 batching schedules ----
+// @harness name=c08_awr_m00 prop=C08 tier=quick timeout=900
+worker_harness!(c08_awr_m00, 1, 0, sh_awr, 1);
+// @harness name=c08_awr_m01 prop=C08 tier=quick timeout=900
+worker_harness!(c08_awr_m01, 1, 1, sh_awr, 1);
+// @harness name=c08_awr_m02 prop=C08 tier=quick timeout=900
+worker_harness!(c08_awr_m02, 1, 2, sh_awr, 1);
+// @harness name=c08_awr_m03 prop=C08 tier=quick timeout=900
+worker_harness!(c08_awr_m03, 1, 3, sh_awr, 1);
+
+// ---- c08_awrw: 4 requests, 8 batching schedules ----
+// @harness name=c08_awrw_m00 prop=C08 tier=quick timeout=900
+worker_harness!(c08_awrw_m00, 2, 0, sh_awrw, 2);
+// @harness name=c08_awrw_m01 prop=C08 tier=quick timeout=900
+worker_harness!(c08_awrw_m01, 2, 1, sh_awrw, 2);
+// @harness name=c08_awrw_m02 prop=C08 tier=quick timeout=900
+worker_harness!(c08_awrw_m02, 2, 2, sh_awrw, 2);
+// @harness name=c08_awrw_m03 prop=C08 tier=quick timeout=900
+worker_harness!(c08_awrw_m03, 2, 3, sh_awrw, 2);
+// @harness name=c08_awrw_m04 prop=C08 tier=quick timeout=900
+worker_harness!(c08_awrw_m04, 2, 4, sh_awrw, 2);
+// @harness name=c08_awrw_m05 prop=C08 tier=quick timeout=900
+worker_harness!(c08_awrw_m05, 2, 5, sh_awrw, 2);
+// @harness name=c08_awrw_m06 prop=C08 tier=quick timeout=900
+worker_harness!(c08_awrw_m06, 2, 6, sh_awrw, 2);
+// @harness name=c08_awrw_m07 prop=C08 tier=quick timeout=900
+worker_harness!(c08_awrw_m07, 2, 7, sh_awrw, 2);
+
+// ---- c08_tawrw: 5 requests, 16 batching schedules ----
+// @harness name=c08_tawrw_m00 prop=C08 tier=thorough timeout=900
+worker_harness!(c08_tawrw_m00, 2, 0, sh_tawrw, 2);
+// @harness name=c08_tawrw_m01 prop=C08 tier=thorough timeout=900
+worker_harness!(c08_tawrw_m01, 2, 1, sh_tawrw, 2);
+// @harness name=c08_tawrw_m02 prop=C08 tier=thorough timeout=900
+worker_harness!(c08_tawrw_m02, 2, 2, sh_tawrw, 2);
+// @harness name=c08_tawrw_m03 prop=C08 tier=thorough timeout=900
+worker_harness!(c08_tawrw_m03, 2, 3, sh_tawrw, 2);
+// @harness name=c08_tawrw_m04 prop=C08 tier=thorough timeout=900
+worker_harness!(c08_tawrw_m04, 2, 4, sh_tawrw, 2);
+// @harness name=c08_tawrw_m05 prop=C08 tier=thorough timeout=900
+worker_harness!(c08_tawrw_m05, 2, 5, sh_tawrw, 2);
+// @harness name=c08_tawrw_m06 prop=C08 tier=thorough timeout=900
+worker_harness!(c08_tawrw_m06, 2, 6, sh_tawrw, 2);
+// @harness name=c08_tawrw_m07 prop=C08 tier=thorough timeout=900
+worker_harness!(c08_tawrw_m07, 2, 7, sh_tawrw, 2);
+// @harness name=c08_tawrw_m08 prop=C08 tier=thorough timeout=900
+worker_harness!(c08_tawrw_m08, 2, 8, sh_tawrw, 2);
+// @harness name=c08_tawrw_m09 prop=C08 tier=thorough timeout=900
+worker_harness!(c08_tawrw_m09, 2, 9, sh_tawrw, 2);
+// @harness name=c08_tawrw_m10 prop=C08 tier=thorough timeout=900
+worker_harness!(c08_tawrw_m10, 2, 10, sh_tawrw, 2);
+// @harness name=c08_tawrw_m11 prop=C08 tier=thorough timeout=900
+worker_harness!(c08_tawrw_m11, 2, 11, sh_tawrw, 2);
+// @harness name=c08_tawrw_m12 prop=C08 tier=thorough timeout=900
+worker_harness!(c08_tawrw_m12, 2, 12, sh_tawrw, 2);
+// @harness name=c08_tawrw_m13 prop=C08 tier=thorough timeout=900
+worker_harness!(c08_tawrw_m13, 2, 13, sh_tawrw, 2);
+// @harness name=c08_tawrw_m14 prop=C08 tier=thorough timeout=900
+worker_harness!(c08_tawrw_m14, 2, 14, sh_tawrw, 2);
+// @harness name=c08_tawrw_m15 prop=C08 tier=thorough timeout=900
+worker_harness!(c08_tawrw_m15, 2, 15, sh_tawrw, 2);
+
+// ---- c08_aawr2: 4 requests, 8 batching schedules ----
+// @harness name=c08_aawr2_m00 prop=C08 tier=quick timeout=900
+worker_harness!(c08_aawr2_m00, 1, 0, sh_aawr2, 1);
+// @harness name=c08_aawr2_m01 prop=C08 tier=quick timeout=900
+worker_harness!(c08_aawr2_m01, 1, 1, sh_aawr2, 1);
+// @harness name=c08_aawr2_m02 prop=C08 tier=quick timeout=900
+worker_harness!(c08_aawr2_m02, 1, 2, sh_aawr2, 1);
+// @harness name=c08_aawr2_m03 prop=C08 tier=quick timeout=900
+worker_harness!(c08_aawr2_m03, 1, 3, sh_aawr2, 1);
+// @harness name=c08_aawr2_m04 prop=C08 tier=quick timeout=900
+worker_harness!(c08_aawr2_m04, 1, 4, sh_aawr2, 1);
+// @harness name=c08_aawr2_m05 prop=C08 tier=quick timeout=900
+worker_harness!(c08_aawr2_m05, 1, 5, sh_aawr2, 1);
+// @harness name=c08_aawr2_m06 prop=C08 tier=quick timeout=900
+worker_harness!(c08_aawr2_m06, 1, 6, sh_aawr2, 1);
+// @harness name=c08_aawr2_m07 prop=C08 tier=quick timeout=900
+worker_harness!(c08_aawr2_m07, 1, 7, sh_aawr2, 1);
 
 // @harness name=zz_c04_probe_f0 prop=PROBE tier=never timeout=600
 worker_harness!(zz_c04_probe_f0, 0, 0, sh_taww, 2);
 // @harness name=zz_c04_probe_f2 prop=PROBE tier=never timeout=600
-worker_harness!(zz_c04_probe_f2, 0b1010, 0, sh_taww, 2);
-
-#[inline(never)]
-fn probe_const_v(x: usize) { let mut i = 0; while i < x { i += 1; } }
-#[inline(never)]
-fn probe_const_a(x: usize) { let mut i = 0; while i < x { i += 1; } }
-#[inline(never)]
-fn probe_const_b(x: usize) { let mut i = 0; while i < x { i += 1; } }
-#[inline(never)]
-fn probe_const_c(x: usize) { let mut i = 0; while i < x { i += 1; } }
-
-// @harness name=zz_c04_probe_variant prop=PROBE tier=never timeout=300
-#[kani::proof]
-#[kani::unwind(12)]
-fn zz_c04_probe_variant() {
-    let mut s = setup(0, 0);
-    sh_taww(&mut s);
-    let Setup { tx, worker, files } = s;
-    let rx = &worker.rx;
-    probe_const_a(tx.ghost_sent() + 1);
-    probe_const_b(rx.ghost_pending() + 1);
-    probe_const_c(gc::tag_at(0, 0) as usize + 1);
-    let r = rx.recv();
-    match r {
-        Ok(SeqRequest { seq: _, req }) => {
-            let v = match &req {
-                WorkerRequest::AppendFile(_) => 3,
-                WorkerRequest::RemoveChunks { .. } => 5,
-                WorkerRequest::Write(_) => 7,
-                WorkerRequest::GetFlushStat { .. } => 9,
-            };
-            probe_const_v(v);
-            core::mem::forget(req);
-        }
-        Err(_) => probe_const_v(11),
-    }
-    core::mem::forget(tx);
-    core::mem::forget(files);
-    core::mem::forget(worker);
-}
+worker_harness!(zz_c04_probe_f2, 2, 0, sh_taww, 2);
